@@ -38,6 +38,41 @@ Theorem C18_invalid_keeps_rules :
 Proof. exact invalid_keeps_rules. Qed.
 Print Assumptions C18_invalid_keeps_rules.
 
+(* "well formed or not ... non-JSON": a message whose outer decoding fails (not JSON at all, or a member of
+   the wrong type - [None] in the model; the decoding itself is encoding/json's, tied in by the correspondence
+   run, which also checks that whatever decodes is accepted by [wf]) is refused with the plain error and
+   changes nothing *)
+Theorem C18_undecodable_is_refused :
+  forall dd ds api fx s, step dd ds api fx s None = (s, Err e_bad).
+Proof. exact undecodable_is_refused. Qed.
+Print Assumptions C18_undecodable_is_refused.
+
+(* "(the result or an error object)": an error is reported as the JSON object {"error": <text>} *)
+Theorem C18_error_reply_is_error_object :
+  forall t, render repaired (Err t) = Some (print (JObj [(bytes_of "error", JStr t)])).
+Proof. exact error_reply_is_error_object. Qed.
+Print Assumptions C18_error_reply_is_error_object.
+
+(* "... and is re-created after a delete-all": whatever the destination table held - even another rule under
+   the id apiRule - after delete destination all / deleteAll it holds exactly the control connection's rule *)
+Theorem C18_delete_all_recreates_api_rule :
+  forall dd ds api, api <> [] -> forall s w, w = k_all \/ w = k_deleteAll ->
+    has_api api (fst (step dd ds api repaired s (c_delete_dest w))) /\
+    forall id, id <> k_apiRule -> dlk id (dests (fst (step dd ds api repaired s (c_delete_dest w)))) = None.
+Proof. exact delete_all_recreates_api_rule. Qed.
+Print Assumptions C18_delete_all_recreates_api_rule.
+
+(* non-vacuity: a table in which apiRule had been re-pointed and two other rules exist *)
+Example C18_delete_all_witness :
+  let api := bytes_of "ws://relay/in/api" in
+  let dd := fun _ : bytes => @inr drule bytes [] in
+  let ds := fun _ : bytes => @inr srule bytes [] in
+  let s := mkst [(k_apiRule, mkd k_apiRule k_api (bytes_of "ws://elsewhere") [] []);
+                 (bytes_of "00", zero_drule); (bytes_of "01", zero_drule)] [] in
+  dests (fst (step dd ds api repaired s (c_delete_dest k_deleteAll))) = [(k_apiRule, api_rule api)] /\
+  step dd ds api repaired s None = (s, Err e_bad).
+Proof. vm_compute. split; reflexivity. Qed.
+
 (* the control connection's own rule: with a control destination configured, no sequence of commands that
    does not itself re-write the rule ("add destination" with id apiRule) changes it - delete, delete-all and
    the reserved id "deleteAll" included (delete-all re-creates it in the same step) *)
@@ -65,6 +100,13 @@ Theorem C18_http_total :
     (fst r = 500%N /\ ((exists t, q = HDestAdd (inr t)) \/ exists t, q = HStreamAdd (inr t))).
 Proof. exact http_total. Qed.
 Print Assumptions C18_http_total.
+
+(* ... and a request that is answered with anything but 200 (undecodable body: 500, unknown stream: 404)
+   leaves both rule tables as they were *)
+Theorem C18_http_error_keeps_rules :
+  forall s q, fst (snd (hstep s q)) <> 200%N -> fst (hstep s q) = s.
+Proof. exact http_error_keeps_rules. Qed.
+Print Assumptions C18_http_error_keeps_rules.
 
 (* ---- the control topic as a whole, with the handler's busy window (Model/AdminApi.v [tstep]).
    FULL STATEMENT of the clause "every message arriving on the host's websocket control topic gets a reply",
